@@ -27,6 +27,10 @@ pub fn run(args: &[Sx]) -> Sx {
                 let (term, dims) = (parse_term(&args[1])?, args[2].usizes()?);
                 with_d!(term.base_d(), reorder_mut_like(op, &term, &dims))
             }
+            (22, 3) => {
+                let (term, dims) = (parse_term(&args[1])?, args[2].usizes()?);
+                with_d!(term.base_d(), four_forms(&term, &dims))
+            }
             (5, 3) => {
                 let (term, shape) = (parse_term(&args[1])?, args[2].pairs_usize()?);
                 with_d!(term.base_d(), reshape_mut(&term, &shape))
@@ -214,6 +218,53 @@ fn reorder_mut_like<const D: usize>(op: i64, term: &Term, dims: &[usize]) -> Sx 
         return inconsistent(1302);
     }
     in_place
+}
+
+/// (shape ((v)|()…)) of a lazy view: view_shape and get_reference at every index of that shape
+fn lazy_sx<S: TensorRef<i64, D>, const D: usize>(s: &S) -> Sx {
+    let shape = s.view_shape();
+    let lens: Vec<usize> = shape.iter().map(|d| d.1).collect();
+    let items = all_indexes(&lens).iter().map(|i| opt(s.get_reference(idx_arr::<D>(i)).map(|v| z(*v)))).collect();
+    ok(l(vec![shape_sx(&shape), l(items)]))
+}
+
+/// op 22: the four forms of reorder and of transpose on ONE tensor, each reported separately
+/// (allocating Tensor method, in-place Tensor method, lazy view dumped by get_reference, TensorView
+/// method); the model computes each from its own transcription, so all four must also agree.
+fn four_forms<const D: usize>(term: &Term, dims: &[usize]) -> Sx {
+    if dims.len() != D {
+        return bad_case();
+    }
+    let dims: [&'static str; D] = names_arr(dims);
+    let t = tensor_or_return!(term);
+    let mut out = vec![];
+    for transpose in [false, true] {
+        let allocating = out_tensor(guarded(|| if transpose { t.transpose(dims) } else { t.reorder(dims) }));
+        let mut m = t.clone();
+        let done = guarded(|| if transpose { m.transpose_mut(dims) } else { m.reorder_mut(dims) });
+        let in_place = out_tensor(done.map(|_| m));
+        let lazy = guarded(|| if transpose { lazy_sx(t.transpose_view(dims).source_ref()) } else { lazy_sx(&t.index_by(dims)) })
+            .unwrap_or_else(panicked);
+        let by_view = out_tensor(guarded(|| if transpose { t.view().transpose(dims) } else { t.view().reorder(dims) }));
+        // further entry points that must agree with the forms above
+        let owned_view = out_tensor(guarded(|| {
+            let v = t.clone().view_owned();
+            if transpose { v.transpose(dims) } else { v.reorder(dims) }
+        }));
+        if owned_view != by_view {
+            return inconsistent(1340);
+        }
+        let mut m2 = t.clone();
+        let via_mut_view = out_tensor(guarded(|| {
+            let v = TensorView::from(&mut m2);
+            if transpose { v.transpose(dims) } else { v.reorder(dims) }
+        }));
+        if via_mut_view != by_view {
+            return inconsistent(1341);
+        }
+        out.push(l(vec![allocating, in_place, lazy, by_view]));
+    }
+    l(out)
 }
 
 fn reshape_mut<const D: usize>(term: &Term, shape: &[(usize, usize)]) -> Sx {
